@@ -561,6 +561,31 @@ func c17Validity(w *core.W, j int) {
 				map[string]any{"t": t, "inception": I, "expiration": E})
 		}
 	}
+	// the zero time stands for "now": windows placed around the clock, the verdict taken only when the
+	// clock readings before and after the call call for the same answer
+	for k := 0; k < 40; k++ {
+		t0 := time.Now().Unix()
+		d := []int64{0, -1, 1, -30, 30, -86400, 86400}[k%7]
+		span := []int64{0, 1, 3600}[(k/7)%3]
+		I, E := t0+d-span, t0+d+span
+		if I < 0 {
+			continue
+		}
+		rr := &dns.RRSIG{Inception: uint32(I % p32), Expiration: uint32(E % p32)}
+		got := rr.ValidityPeriod(time.Time{})
+		t1 := time.Now().Unix()
+		w0, w1 := I <= t0 && t0 <= E, I <= t1 && t1 <= E
+		if w0 != w1 {
+			w.Count("validity_now_undecided", 1)
+			continue
+		}
+		w.Eval(1)
+		w.Count("validity_now_checks", 1)
+		if got != w0 {
+			w.Violation("C17/validity-period/zero-time-is-now", fmt.Sprintf("ValidityPeriod(zero time)=%v with inception now%+d and expiration now%+d (clock %d..%d), want %v", got, I-t0, E-t0, t0, t1, w0),
+				map[string]any{"inception": I, "expiration": E, "clock_before": t0, "clock_after": t1})
+		}
+	}
 	w.NontrivialStr("validity", fmt.Sprint(j))
 }
 
